@@ -16,14 +16,14 @@ Variable cap : Z.
 Variable ucfg : bool.
 Variable daf : bool.
 
-Notation step := (Shutdown.step cap ucfg daf).
-Notation apply := (Shutdown.apply cap ucfg daf).
-Notation run_from := (Shutdown.run_from cap ucfg daf).
-Notation run := (Shutdown.run cap ucfg daf).
-Notation prompt_from := (Shutdown.prompt_from cap ucfg daf).
-Notation prompt := (Shutdown.prompt cap ucfg daf).
-Notation step_thread := (Shutdown.step_thread cap daf).
-Notation work_step := (Shutdown.work_step daf).
+Notation step := (Shutdown.step cap ucfg daf true).
+Notation apply := (Shutdown.apply cap ucfg daf true).
+Notation run_from := (Shutdown.run_from cap ucfg daf true).
+Notation run := (Shutdown.run cap ucfg daf true).
+Notation prompt_from := (Shutdown.prompt_from cap ucfg daf true).
+Notation prompt := (Shutdown.prompt cap ucfg daf true).
+Notation step_thread := (Shutdown.step_thread cap daf true).
+Notation work_step := (Shutdown.work_step daf true).
 Notation step_run := (Shutdown.step_run ucfg).
 
 Definition wf_pc (t : tid) (p : pc) : bool :=
@@ -1035,8 +1035,8 @@ Proof.
         destruct (thread (set_thread w MU (TLive PWork f')) UN) eqn:Eu; try (rewrite Hb; unfold W; lia).
         all: rewrite rank_set_ustop, rank_set_thread, Eu, Hb; rk. }
     destruct t; try (apply Hprod; exact E).
-    + (apply some_inj in E; subst w'). rewrite rank_set_thread.
-      destruct k; rewrite ?thread_restart, ?rank_restart, Et; rk.
+    + (apply some_inj in E; subst w'). unfold so_after_fail.
+      destruct k; rewrite rank_set_thread, ?thread_restart, ?rank_restart, Et; rk.
     + destruct k; destruct (d_pufail (w_dat w)); try destruct daf; (apply some_inj in E; subst w').
       all: try (rewrite rank_set_thread, rank_callback;
                 change (thread (callback w PU) PU) with (thread w PU); rewrite Et; rk).
